@@ -140,11 +140,24 @@ def judge(g, name, text, fname):
         os.makedirs(d)
     inp = os.path.join(ind, fname)          # fname may place the file in sub-directories (data/<dir>/x.exp)
     os.makedirs(os.path.dirname(inp), exist_ok=True)
+    rescan = (sum(map(ord, name)) % 3 == 0) and text.rstrip().endswith('END_SCHEMA;')
+    if rescan:
+        # history: the same build tree was scanned before for ANOTHER version of this file (one more entity); the version judged
+        # is put back with an OLDER time stamp than the lists of the first scan (cp -p / rsync -t / tar restore an old file)
+        cut = text.rstrip().rfind('END_SCHEMA;')
+        with open(inp, 'w') as f:
+            f.write(text[:cut] + 'ENTITY zz_only_in_the_other_version;\n  zz : INTEGER;\nEND_ENTITY;\n' + text[cut:])
+        run.run([g.tools['schema_scanner'], inp], cwd=sdir, env=g.env, timeout=g.timeout)
     with open(inp, 'w') as f:
         f.write(text)
+    if rescan:
+        old = os.path.getmtime(inp) - 7200
+        os.utime(inp, (old, old))
     rs = run.run([g.tools['schema_scanner'], inp], cwd=sdir, env=g.env, timeout=g.timeout)
     rg = run.run([g.tools['exp2cxx'], inp], cwd=gdir, env=g.env, timeout=g.timeout)
     res = dict(name=name, findings=[], runs=2, status='judged', nschemas=0, nfiles=0, tags=set())
+    if rescan:
+        res['tags'].add('history: build tree scanned before for another version of the file')
     if rs.timed_out or rg.timed_out:
         res['status'] = 'timeout'
         return res
